@@ -14,7 +14,7 @@ var (
 	HashKeys  = []string{"#amenity", "#building", "#highway", "#shop"}
 	AtKeys    = []string{"@wikidata", "@ref"}
 	PlainKeys = []string{"name", "note", "oneway"}
-	TagValues = []string{"yes", "no", "cafe", "primary", "a b", "1"}
+	TagValues = []string{"yes", "no", "cafe", "primary", "a b", "1", "\U0001F600x"} // the last one sorts after U+FFFD (a 4-byte rune)
 	AllKeys   = append(append(append([]string{}, HashKeys...), AtKeys...), PlainKeys...)
 )
 
